@@ -39,6 +39,19 @@ type c18Val struct {
 	A       string   `query:"a" form:"a" json:"a" xml:"a"`
 }
 
+// what the handler behind a data-reading middleware binds
+type c18Helper struct {
+	Name  string `query:"name" form:"name"`
+	Other string `query:"other" form:"other"`
+}
+
+// a list of strings (one element may hold a comma)
+type c18Lab struct {
+	XMLName xml.Name `xml:"l" json:"-" query:"-" form:"-"`
+	Labels  []string `query:"labels" form:"labels" json:"labels" xml:"labels"`
+	Note    string   `query:"note" form:"note" json:"note" xml:"note"`
+}
+
 // rules that live only inside slice elements
 type c18Item struct {
 	SKU string `json:"sku" xml:"sku" validate:"required|minLen:3"`
@@ -234,6 +247,72 @@ func c18Run(c c18Case, st *fw.Stats) []fw.Viol {
 						add("history:stale-body", fmt.Sprintf("%s bind of %q after an earlier bind whose body reader failed half way: Name=%q err=%v, expected %q", f, body, o2.Name, e2, goodName))
 					} else if body == empty && e2 == nil {
 						add("history:stale-body", fmt.Sprintf("%s bind of an EMPTY body after an earlier bind whose body reader failed half way succeeded with Name=%q", f, o2.Name))
+					}
+				}
+			}
+		}
+		// (3) a middleware reads request data through one of the context's helpers before the handler binds: the bind
+		// still reads the request's own body (query string for body-less methods), all of it
+		helpers := []string{"none", "FormParams()", "FormParams([name])", "FormParams([name other])", "FormParams([missing])", "Post(name)", "PostParams(other)", "Query(name)", "QueryValues().Del(name)", "ParseMultipartForm()", "FormFile(nofile)", "FormParams([name]) twice"}
+		for _, hp := range helpers {
+			for _, f := range []string{"form", "multipart", "query"} {
+				for _, m := range []string{"POST", "PUT", "PATCH", "GET", "DELETE"} {
+					bodyless := m == "GET" || m == "DELETE"
+					if (f == "query") != bodyless {
+						continue
+					}
+					st.Evals++
+					st.Nontrivial++
+					var req *http.Request
+					switch f {
+					case "form":
+						req = httptest.NewRequest(m, "/x?name=Q&other=q1", strings.NewReader("name=F&other=1"))
+						req.Header.Set("Content-Type", "application/x-www-form-urlencoded")
+					case "multipart":
+						req = httptest.NewRequest(m, "/x?name=Q&other=q1", strings.NewReader(c18MultipartBody([][2]string{{"name", "F"}, {"other", "1"}})))
+						req.Header.Set("Content-Type", "multipart/form-data; boundary=BOUNDARY")
+					default:
+						req = httptest.NewRequest(m, "/x?name=Q&other=q1", nil)
+					}
+					var obj c18Helper
+					var err error
+					r := rux.New()
+					r.Use(func(ctx *rux.Context) {
+						switch hp {
+						case "FormParams()":
+							_, _ = ctx.FormParams()
+						case "FormParams([name])":
+							_, _ = ctx.FormParams([]string{"name"})
+						case "FormParams([name]) twice":
+							_, _ = ctx.FormParams([]string{"name"})
+							_, _ = ctx.FormParams([]string{"name"})
+						case "FormParams([name other])":
+							_, _ = ctx.FormParams([]string{"name", "other"})
+						case "FormParams([missing])":
+							_, _ = ctx.FormParams([]string{"missing"})
+						case "Post(name)":
+							_ = ctx.Post("name")
+						case "PostParams(other)":
+							_, _ = ctx.PostParams("other")
+						case "Query(name)":
+							_ = ctx.Query("name")
+						case "QueryValues().Del(name)":
+							ctx.QueryValues().Del("name")
+						case "ParseMultipartForm()":
+							_ = ctx.ParseMultipartForm()
+						case "FormFile(nofile)":
+							_, _ = ctx.FormFile("nofile")
+						}
+					})
+					r.Any("/x", func(ctx *rux.Context) { err = ctx.Bind(&obj) })
+					wantName, wantOther := "F", "1"
+					if bodyless {
+						wantName, wantOther = "Q", "q1"
+					}
+					if pv := try(func() { r.ServeHTTP(httptest.NewRecorder(), req) }); pv != nil {
+						add("history:panic", fmt.Sprintf("%s %s request, middleware calls Context.%s, handler binds: panicked: %v", m, f, hp, pv))
+					} else if err != nil || obj.Name != wantName || obj.Other != wantOther {
+						add("history:helper-before-bind", fmt.Sprintf("%s request (%s data name=%s other=%s; query string name=Q other=q1): a middleware calls Context.%s, then the handler's Bind gives Name=%q Other=%q err=%v; the request carries Name=%q Other=%q", m, f, wantName, wantOther, hp, obj.Name, obj.Other, err, wantName, wantOther))
 					}
 				}
 			}
@@ -470,6 +549,31 @@ func c18Run(c c18Case, st *fw.Stats) []fw.Viol {
 					add("malformed:panic", fmt.Sprintf("xml body %q: Auto panicked: %v", mdoc, pv))
 				} else if err == nil {
 					add("malformed:xml-accepted", fmt.Sprintf("malformed XML %q was bound without error: %+v", mdoc, got))
+				}
+			}
+		}
+		// lists of strings, also one-element lists whose element holds the usual list separators
+		for _, labels := range [][]string{nil, {"a"}, {"a,b"}, {"a", "b"}, {"a,b", "c"}, {","}, {"a;b"}, {"a b"}, {"a|b"}, {"[a]"}, {"a", "b,c", "d"}, {"1,2,3"}} {
+			for _, note := range []string{"", "x,y"} {
+				st.Evals++
+				st.Nontrivial++
+				want := c18Lab{Labels: labels, Note: note}
+				fields := [][2]string{{"note", note}}
+				for _, l := range labels {
+					fields = append(fields, [2]string{"labels", l})
+				}
+				m := "POST"
+				if c.Format == "query" {
+					m = "GET"
+				}
+				var got c18Lab
+				var err error
+				if pv := try(func() { err = binding.Auto(c18Request(m, c.Format, fields, want), &got) }); pv != nil {
+					add("roundtrip:panic", fmt.Sprintf("%s round trip of %+v panicked: %v", c.Format, want, pv))
+					continue
+				}
+				if err != nil || got.Note != note || strings.Join(got.Labels, "\x00") != strings.Join(labels, "\x00") || len(got.Labels) != len(labels) {
+					add("roundtrip:"+c.Format+":string-list", fmt.Sprintf("%s: encoding Labels=%q Note=%q and binding it back gives Labels=%q Note=%q (err=%v)", c.Format, labels, note, got.Labels, got.Note, err))
 				}
 			}
 		}
@@ -724,7 +828,7 @@ var c18Spec = fw.Spec[c18Case]{
 	ID:      "C18",
 	Level:   "model_checking",
 	Workers: 1,
-	Rule: "complete enumeration: decision table 19 method tokens (the nine standard ones, extension methods, other spellings, empty) x 22 Content-Type strings (the unsupported ones include sub-types spelled like registered binder names) x query present/absent, every source carrying a different value; requests with a history (form parsed before the method became body-less / the parsed form edited; a body reader that failed half way before the next binds); all sequences of <=3 (thorough 4) binds over 6 sources of a struct whose field has a different name in every source's tag; round trip of all values of a struct over int{0,1,-7,2^31} x 9 strings (unicode, separators, markup, quotes) x bool x 4 int slices through query / urlencoded / multipart / JSON / XML; all byte strings of length <=4 (thorough 5) over 14 bytes as body per format (must not panic; malformed JSON/XML must yield an error); validator on/off reached through every history of <=3 switch operations {ResetValidator, DisableValidator, assign a custom validator, assign nil} x values on both sides of each rule and a completely empty value set; " +
+	Rule: "complete enumeration: decision table 19 method tokens (the nine standard ones, extension methods, other spellings, empty) x 22 Content-Type strings (the unsupported ones include sub-types spelled like registered binder names) x query present/absent, every source carrying a different value; requests with a history (form parsed before the method became body-less / the parsed form edited; a body reader that failed half way before the next binds; a middleware calling one of 11 data-reading context helpers - FormParams with and without except lists, Post, PostParams, Query, QueryValues, ParseMultipartForm, FormFile - before the handler binds, x urlencoded / multipart / query x 5 methods); all sequences of <=3 (thorough 4) binds over 6 sources of a struct whose field has a different name in every source's tag; round trip of all values of a struct over int{0,1,-7,2^31} x 9 strings (unicode, separators, markup, quotes) x bool x 4 int slices, and of 12 string lists (one-element lists holding , ; | space brackets included) x 2 notes, through query / urlencoded / multipart / JSON / XML; all byte strings of length <=4 (thorough 5) over 14 bytes as body per format (must not panic; malformed JSON/XML must yield an error); validator on/off reached through every history of <=3 switch operations {ResetValidator, DisableValidator, assign a custom validator, assign nil} x values on both sides of each rule and a completely empty value set; " +
 		"non-trivial = a table row / a round-tripped value / a malformed body",
 	Assume: []string{"media types that merely contain a canonical subtype as a substring (application/jsonp) are outside the alphabet", "runs single-threaded: the validator switch is package-global", "encoding/json and encoding/xml decide what 'malformed' means"},
 	Bounds: func(tier string) map[string]any {
